@@ -49,4 +49,10 @@ TABLE.update({
                 note=_ENUM_NOTE),
 })
 
+TABLE.update({
+    "C01": dict(engine="ORD", design_ref="DESIGN.md 4/C01", technique="schedule exploration over iteration orders (consecutive interpreter hash seeds in fresh processes until the declared order space is covered), implementation-level",
+                text="Three generated scenarios (multi-fleet ties; charging ties across plug types, search cells and single-plug queues; human drivers, one-stall bases, overlapping price regions) and the shipped denver_demo_fleets inputs are loaded from real files and run in fresh interpreters under consecutive hash seeds until every permutation of every declared unordered collection of size <= 4 has been realised; per-step states, per-step event multisets and summary statistics equal those of the first seed. Contention counters prove each scenario passes through the ties it declares.",
+                note="Trusted base: hivemc/ord.py, ord_worker.py, scen.py (canonicalisation drops only per-run UUID tags and sorts sets/maps); assumes hash values reach behaviour only through iteration order of str-keyed sets/Maps; shipped scenarios run on the straight-line network for a fixed number of seeds."),
+})
+
 NOT_APPLICABLE = {}
